@@ -39,7 +39,8 @@ Definition tok_instantiate (base : bool) (hubaddr : addr) (mk : N) (rows : list 
   : result token :=
   (* stsei wrapper: marketing info with an address is mandatory (checked before cw20 init) *)
   check (negb base) || (mk =? 2);
-  check (negb base) || negb (has_dup (map fst rows));
+  (* both crates reject repeated initial addresses (cw20-legacy since the fix of finding F4) *)
+  check negb (has_dup (map fst rows));
   do bs <- create_accounts rows;
   Some (mkToken hubaddr (snd bs) (Some (hubaddr, None)) (fst bs) []).
 
